@@ -944,7 +944,7 @@ def mutate(ts, doc, rng, name=None):
 # ---------------------------------------------------------------------------------------------------------
 # G1: pool configurations of spec/gql/Gen_ValDoc.tla
 BASE = {"MaxNodes": 2, "MaxSecs": 1, "MaxAlias": 0, "MaxArgs": 0, "MaxDirs": 0, "MaxVars": 0, "OpHeads": ["query:"], "FragNames": [],
-        "Fields": [], "Conds": [], "Spreads": [], "ArgPool": [], "DirPool": [], "VarPool": [], "OpenOnly": [], "LeafOnly": []}
+        "Fields": [], "Conds": [], "Spreads": [], "ArgPool": [], "DirPool": [], "VarPool": [], "OpenOnly": [], "LeafOnly": [], "FragSeq": (), "Inline": 1}
 
 ARGS_IN = ["i=obj", "i=objnob", "i=objunk", "i=objbad", "i=objdup", "i=objdupbad", "i=objdupgood", "i=int1", "i=l1", "i=obj$v", "i=obj$vbad", "i=objnbad", "i=objdnull", "i=objfull", "i=objn"]
 ARGS_LIST = ["l=l1", "l=int1", "l=lstr", "l=str", "l=lnull", "l=null", "l=l$v", "l=l$vstr", "l=$v", "l=lobj", "l=lobj1", "l=obj", "l=lempty"]
@@ -977,6 +977,12 @@ def g1_configs(quick):
     c["vars2"] = dict(BASE, MaxNodes=2, MaxArgs=2, MaxVars=2, OpHeads=["query:Q"], Fields=["fi", "f2"], LeafOnly=["fi", "f2"], ArgPool=["x=$v", "x=$w", "y=$w"] if q else ["x=$v", "x=$w", "y=$w", "y=$v", "x=int1"],
                       VarPool=["v|Int||", "w|String||", "w|Int||"] if q else ["v|Int||", "v|String||", "w|String||", "w|Int||"])
     c["frags"] = dict(BASE, MaxNodes=3 if q else 4, MaxSecs=3, Fields=["n"], LeafOnly=["n"], Conds=["Query"] if q else ["Query", "A", "Nope"], FragNames=["F1", "F2"], Spreads=["F1", "F2", "Nope"])
+    # fragment DAGs: spreads between fragments, shared non-leaf fragments (diamonds, shared sub-chains, double spreads) and their cyclic neighbours
+    c["fragdag"] = dict(BASE, MaxNodes=4 if q else 5, MaxSecs=4, Fields=["n"], LeafOnly=["n"], Conds=["Query"], Inline=0,
+                        FragSeq=("F1", "F2", "F3"), Spreads=["F1", "F2", "F3"])
+    # two selections with one response name whose argument sets are equal / subset / superset / disjoint / differ in a value, in both orders
+    c["mergeargs"] = dict(BASE, MaxNodes=3, MaxArgs=4, Fields=["f2"], LeafOnly=["f2"], ArgPool=["x=int1", "y=str", "x=int2"] if q else ["x=int1", "y=str", "x=int2", "y=$v"],
+                          MaxVars=0 if q else 1, VarPool=[] if q else ["v|String||"], OpHeads=["query:"] if q else ["query:Q"])
     c["fragvars"] = dict(BASE, MaxNodes=3, MaxSecs=2 if q else 3, MaxArgs=1, MaxVars=1, OpHeads=["query:Q"] if q else ["query:Q", "query:R"], Fields=["fi"], LeafOnly=["fi"], Conds=["Query"], FragNames=["F1"], Spreads=["F1"],
                          ArgPool=["x=$v", "x=int1"] if q else ["x=$v", "x=int1", "x=$w"], VarPool=["v|Int||", "v|String||"])
     c["ops"] = dict(BASE, MaxNodes=3, MaxSecs=2, MaxAlias=1, OpHeads=["query:", "query:Q", "subscription:S", "mutation:Q"] if q else ["query:", "query:Q", "query:R", "mutation:Q", "subscription:S", "subscription:"],
@@ -994,7 +1000,8 @@ def write_gen_module(dirpath, name, confs, invariants):
     for label, conf in sorted(confs.items()):
         fs = ['label |-> %s' % tla_str(label)]
         for k, v in sorted(conf.items()):
-            fs.append("%s |-> %s" % (k, "{" + ", ".join(tla_str(x) for x in v) + "}" if isinstance(v, list) else str(v)))
+            lit = "{" + ", ".join(tla_str(x) for x in v) + "}" if isinstance(v, list) else "<<" + ", ".join(tla_str(x) for x in v) + ">>" if isinstance(v, tuple) else str(v)
+            fs.append("%s |-> %s" % (k, lit))
         recs.append("  [" + ", ".join(fs) + "]")
     mod = "%s/%s.tla" % (dirpath, name)
     with open(mod, "w") as f:
@@ -1102,3 +1109,89 @@ def m_generic_conflict(ts, d, r):
         sibs += [inline(o1, [field(r.choice(leafs(o1)), alias="zk")]), inline(o2, [field(r.choice(leafs(o2)), alias="zk")])]
         return d
     return None
+
+
+# ---------------------------------------------------------------------------------------------------------
+# fragment DAGs (5.5.2.2: only CYCLES are forbidden; a fragment may be spread from several places)
+DAG_SHAPES = {
+    # name: edges between fragments 1..n (fragment 1 is spread from the document); the last fragment only selects a field
+    "double-spread":    {1: [2, 2], 2: [3], 3: []},
+    "shared-sub-chain": {1: [2, 3], 2: [3], 3: [4], 4: []},
+    "diamond":          {1: [2, 3], 2: [4], 3: [4], 4: [5], 5: []},
+    "diamond-leaf":     {1: [2, 3], 2: [4], 3: [4], 4: []},
+    "chain-3":          {1: [2], 2: [3], 3: [4], 4: []},
+    "fan-in-deep":      {1: [2, 3, 4], 2: [4], 3: [4], 4: [5], 5: [6], 6: []},
+    "two-entry":        {1: [3], 2: [3], 3: [4], 4: []},          # fragments 1 and 2 are both spread from the document
+}
+
+
+@M("fragment-dag")
+def m_fragment_dag(ts, d, r):
+    """a DAG of named fragments with a shared non-leaf fragment (valid), or the same DAG closed into a cycle (invalid)"""
+    holders = [(sibs, t) for sibs, t in any_sels(ts, d) if kind(ts, t) in ("OBJECT", "INTERFACE", "UNION")]
+    if not holders: return None
+    sibs, t = r.choice(holders)
+    shape = r.choice(sorted(DAG_SHAPES))
+    edges = {k: list(v) for k, v in DAG_SHAPES[shape].items()}
+    n = len(edges)
+    cyclic = r.random() < 0.4
+    if cyclic:
+        src = r.randint(2, n)                      # a back edge to an ancestor (or to itself)
+        edges[src].append(r.randint(1, src))
+    order = list(edges)
+    r.shuffle(order)                               # definition order is free
+    for k in order:
+        sels = [spread("FG%d" % j) for j in edges[k]]
+        if not edges[k] or r.random() < 0.5:
+            sels.insert(r.randint(0, len(sels)), field("__typename", alias="zg"))
+        d["frags"].append({"name": "FG%d" % k, "on": t, "dirs": [], "sels": sels})
+    sibs.append(spread("FG1"))
+    if shape == "two-entry":
+        sibs.append(spread("FG2"))
+    return d
+
+
+def optional_arg_fields(ts, t):
+    """leaf fields of type t with >= 2 arguments that may all be left out"""
+    if kind(ts, t) not in ("OBJECT", "INTERFACE"): return []
+    out = []
+    for f, fd in sorted(ts["types"][t]["fields"].items()):
+        opt = [a for a in fd["args"] if a["ty"]["k"] != "nn" or a["hasDefault"]]
+        if len(opt) >= 2 and len(opt) == len(fd["args"]) and kind(ts, named(fd["ty"])) in ("SCALAR", "ENUM"):
+            out.append((f, opt))
+    return out
+
+
+@M("argument-set-pair")
+def m_argument_sets(ts, d, r):
+    """two selections of one field under one response name whose argument sets are equal / reordered (valid) or
+    subset / superset / disjoint / different in one value (invalid by 5.3.2), in both orders, possibly through an
+    inline fragment without type condition"""
+    cands = [(sibs, t, fa) for sibs, t in any_sels(ts, d) for fa in optional_arg_fields(ts, t)]
+    if not cands: return None
+    sibs, t, (f, opt) = r.choice(cands)
+    a, b = r.sample(opt, 2)
+    va, vb = value_for(ts, a["ty"], r), value_for(ts, b["ty"], r)
+    A_ = {"name": a["name"], "val": va}
+    B_ = {"name": b["name"], "val": vb}
+    other = wrong_value_for(ts, b["ty"], r)     # only used when it differs from vb; validity is TLC's business
+    rel = r.choice(["subset", "subset", "disjoint", "empty-vs-one", "value", "equal", "reordered"])
+    first, second = {
+        "subset": ([A_], [A_, B_]), "disjoint": ([A_], [B_]), "empty-vs-one": ([], [A_]),
+        "value": ([A_, B_], [A_, {"name": b["name"], "val": value_for(ts, b["ty"], r) if r.random() < 0.5 else other}]),
+        "equal": ([A_, B_], [A_, B_]), "reordered": ([A_, B_], [B_, A_]),
+    }[rel]
+    if r.random() < 0.5:
+        first, second = second, first               # superset-first / both orders
+    n1 = field(f, args=copy.deepcopy(first), alias="zr")
+    n2 = field(f, args=copy.deepcopy(second), alias="zr")
+    form = r.randrange(4)
+    if form == 1:
+        n2 = inline("", [n2])
+    elif form == 2:
+        n1 = inline("", [n1])
+    elif form == 3 and kind(ts, t) in ("OBJECT", "INTERFACE", "UNION"):
+        d["frags"].append({"name": "FR", "on": t, "dirs": [], "sels": [n2]})
+        n2 = spread("FR")
+    sibs += [n1, n2]
+    return d
